@@ -147,6 +147,12 @@ def _arity(fn):
 def _same(a, b):
   if a is b:
     return True
+  from malt.operators import variables
+  if isinstance(a, variables.Undefined) or isinstance(b, variables.Undefined):
+    # reading a composite that does not exist yet (`for d['j'] in xs`) makes a fresh
+    # Undefined marker on every read; two markers for the same symbol are the same value
+    return (isinstance(a, variables.Undefined) and isinstance(b, variables.Undefined)
+            and object.__getattribute__(a, 'symbol_name') == object.__getattribute__(b, 'symbol_name'))
   try:
     return type(a) is type(b) and bool(a == b)
   except Exception:  # pylint:disable=broad-except
@@ -238,6 +244,12 @@ def _contract(base):
       fail('if_stmt: nouts=%r out of bounds for %r' % (nouts, symbol_names))
     if _arity(body) != 0 or _arity(orelse) != 0:
       fail('if_stmt: body/orelse must take no argument')
+    # outputs first: attribute/subscript state is never "input only" (only simple variables that
+    # are live into but not out of the statement are), so it must sit in the first nouts slots
+    for i, nm in enumerate(symbol_names):
+      if not nm.isidentifier() and i >= nouts:
+        fail('if_stmt: composite state %r at position %d is outside the %d declared outputs %r' % (
+            nm, i, nouts, symbol_names))
     return base.if_stmt(cond, body, orelse, get_state, set_state, symbol_names, nouts)
 
   def check_opts(kind, opts, first_log_entry):
@@ -514,6 +526,10 @@ def _opaque(base):
   def converted_call(f, args, kwargs, caller_fn_scope=None, options=None):
     OPAQUE['stack'].append(f)
     try:
+      if f is range and not kwargs:
+        # CPython's range accepts any object with __index__ (so does the overload); CrossHair's
+        # model of range only takes ints, so opaque loop bounds are unwrapped here
+        args = tuple(_u(a) if isinstance(a, T) else a for a in args)
       return real_cc(f, args, kwargs, caller_fn_scope, options)
     finally:
       OPAQUE['stack'].pop()
@@ -768,6 +784,13 @@ def post_errors(mode, f, g, args, env):
     if not all(any(c == e for e in it) for c in conv) or not conv:
       C12['why'] = 'reported converted frames %r are not a subsequence of %r' % (conv, expected_innermost_first)
       return False
+  # the innermost reported frame names the function whose frame failed in the original
+  # (comprehensions and lambdas, which CPython names '<...>', have no counterpart to compare)
+  want_name = frames_f[-1][1]
+  if not want_name.startswith('<') and listed[0].function_name != want_name:
+    C12['why'] = 'innermost reported frame is attributed to function %r, the original traceback says %r (line %d)' % (
+        listed[0].function_name, want_name, frames_f[-1][0])
+    return False
   # every listed user frame is a frame of the original traceback, in order
   rev = [ln for ln, _ in reversed(frames_f)]
   k = 0
